@@ -12,6 +12,7 @@
 package main
 
 import (
+	"encoding/json"
 	"fmt"
 	"os"
 	"os/exec"
@@ -60,7 +61,8 @@ func main() {
 		{"c17", pick(quick, "0.5", "0.2"), pick(quick, "quick", "thorough"), true},
 		{"c13", pick(quick, "0.5", "0.25"), "quick", true},
 	} {
-		if _, err := os.Stat(filepath.Join(root, "harness", "cmd", opt.id)); err == nil {
+		// Only workloads of checks that are registered in MANIFEST.json.
+		if registered(root, opt.id) {
 			units = append(units, opt)
 		}
 	}
@@ -220,6 +222,28 @@ func main() {
 	}
 	_ = os.RemoveAll(logDir)
 	r.Finish(2)
+}
+
+// registered reports whether MANIFEST.json lists a check for the id.
+func registered(root, id string) bool {
+	b, err := os.ReadFile(filepath.Join(root, "MANIFEST.json"))
+	if err != nil {
+		return false
+	}
+	var m struct {
+		Checks []struct {
+			PropertyID string `json:"property_id"`
+		} `json:"checks"`
+	}
+	if json.Unmarshal(b, &m) != nil {
+		return false
+	}
+	for _, c := range m.Checks {
+		if strings.EqualFold(c.PropertyID, id) {
+			return true
+		}
+	}
+	return false
 }
 
 func pick(quick bool, q, t string) string {
